@@ -118,7 +118,8 @@ def structural_problem(data, document=None):
             if pdf.resolve(page.get('Parent')) is None:
                 return 'page without /Parent'
         pdfread.content_streams(pdf)
-        return kinds_problem(pdf) or struct_tree_problem(pdf) or name_tree_problem(pdf)
+        return (kinds_problem(pdf) or struct_tree_problem(pdf) or object_reference_problem(pdf) or
+                name_tree_problem(pdf) or embedded_file_problem(pdf))
     except pdfread.PdfError as exc:
         return f'independent reader: {exc}'
 
@@ -315,6 +316,167 @@ def struct_tree_problem(pdf):
     return None
 
 
+# ---------------------------------------------------------------------------------------------------------------
+# fixed families
+# ---------------------------------------------------------------------------------------------------------------
+
+SVG_OPACITIES = ['0', '0%', '0.0', '0.5', '50%', '1', '100%', '2', '-1']
+
+
+def svg_family():
+    """SVG elements with every kind of opacity value, alone and nested, drawn inline, as <img> and as a background."""
+    import base64
+    for i, opacity in enumerate(SVG_OPACITIES):
+        other = SVG_OPACITIES[(i + 3) % len(SVG_OPACITIES)]
+        shapes = (f'<rect width="6" height="6" fill="green" opacity="{opacity}"/>'
+                  f'<g opacity="{other}"><circle cx="5" cy="5" r="3" fill="none" stroke="blue" opacity="{opacity}"/>'
+                  f'<g opacity="{opacity}"><text x="1" y="8" font-size="4">s</text><rect width="2" height="2"/></g></g>'
+                  f'<path d="M0 0L9 9" stroke="red" stroke-opacity="{opacity}" fill-opacity="{other}"/>')
+        svg = f'<svg xmlns="http://www.w3.org/2000/svg" width="10" height="10">{shapes}</svg>'
+        uri = 'data:image/svg+xml;base64,' + base64.b64encode(svg.encode()).decode()
+        yield f'svg-opacity:inline:{opacity}', PAGE_CSS + f'<p>a {svg} b</p>', {}
+        yield f'svg-opacity:img:{opacity}', PAGE_CSS + f'<p>a <img src="{uri}"> b</p>', {'pdf_variant': 'pdf/ua-1'}
+        yield (f'svg-opacity:background:{opacity}',
+               PAGE_CSS + f'<p style="height:20px;background:url({uri})">a</p>', {'uncompressed_pdf': True})
+
+
+ATTACHMENT_CONTENTS = ['h\u00e9llo \u2603', 'plain ascii', '', '\u00e9' * 5000, 'a' * 4097, '\U0001f600']
+
+
+def attachment_family():
+    """Attachments whose content is a str (non-ASCII, ASCII, empty, longer than one 4096-byte read), given by the
+    `attachments` option, by <link rel=attachment> and by <a rel=attachment> (data: URLs, percent-encoded bytes)."""
+    from urllib.parse import quote
+    for i, content in enumerate(ATTACHMENT_CONTENTS):
+        opts = [{}, {'pdf_variant': 'pdf/a-3b'}, {'uncompressed_pdf': True}][i % 3]
+        yield (f'attachment:option:{i}', PAGE_CSS + '<p>a</p>',
+               dict(opts, attachments=[[f'f{i}.txt', content], ['g.bin', content[:3]]]))
+        uri = 'data:text/plain;charset=utf-8,' + quote(content[:300])
+        yield (f'attachment:link:{i}', f'<link rel="attachment" href="{uri}" title="t">' + PAGE_CSS +
+               f'<p>a <a rel="attachment" href="{uri}">att</a></p>', dict(opts))
+
+
+SEQUENCE_BODY = (
+    '<p><a href="#far">to page 2</a> <a href="#near">near</a> <a href="https://example.org/">ext</a></p>'
+    '<p id="near">n</p><h1 style="break-before:page" id="far">far <a href="#near">back</a></h1>'
+    '<p style="break-before:page">third <a href="#far">to 2</a></p>')
+
+
+def sequence_family():
+    """write_pdf sequences on one Document and its copies: [pages (None = all), options] per step."""
+    ua, plain = {'pdf_variant': 'pdf/ua-1'}, {}
+    SEQUENCE_HTML = PAGE_CSS + SEQUENCE_BODY
+    yield 'sequence:full-then-first-page-ua', SEQUENCE_HTML, [[None, plain], [[0], ua]]
+    yield 'sequence:ua-then-subsets-ua', SEQUENCE_HTML, [[None, ua], [[0], ua], [[1, 2], ua], [None, ua]]
+    yield 'sequence:subset-then-full', SEQUENCE_HTML, [[[2], ua], [None, plain], [[0, 2], ua]]
+    yield 'sequence:forms-and-variants', SEQUENCE_HTML, [[None, {'pdf_forms': True}], [[0], {'pdf_variant': 'pdf/a-2b'}],
+                                                        [[0], ua]]
+
+
+def sequence_problem(html, steps):
+    """Every write_pdf of a sequence on one rendered Document (and `Document.copy` of some of its pages) gives a PDF that
+    satisfies the clauses of C16.  -> text | None"""
+    docs.quiet()
+    document = docs.html(html).render()
+    for index, (pages, opts) in enumerate(steps):
+        target = document if pages is None else document.copy([document.pages[i] for i in pages])
+        try:
+            data = target.write_pdf(**decode_options(opts))
+        except Exception as exc:  # noqa: BLE001
+            return f'step {index} (pages {pages}, options {opts}): write_pdf raised {type(exc).__name__}: {exc}'
+        what = structural_problem(data, target)
+        if what is None:
+            pdf = pdfread.Document(data)
+            for label, ops, cats in pdfread.content_streams(pdf):
+                what = stream_problem(ops, cats)
+                if what:
+                    what = f'content stream {label}: {what}'
+                    break
+        if what:
+            return f'step {index} (pages {pages}, options {opts}) after {index} earlier write_pdf: {what}'
+    return None
+
+
+def object_reference_problem(pdf):
+    """Tagged output, `every indirect reference resolves to an object of the expected kind`: every object reference
+    (`/Type /OBJR`) of the file points at an annotation dictionary listed in the /Annots of a page of this file, no two
+    of them at the same annotation; and the /StructParent key of an annotation and the /ParentTree agree: entry n leads
+    (directly through an object reference, as this code writes it, or through a structure element holding one) to an
+    annotation whose /StructParent is n, and every annotation with a /StructParent has its entry."""
+    root = pdf.resolve(pdf.catalog.get('StructTreeRoot'))
+    if not isinstance(root, dict):
+        return None
+    annots = {}
+    for i, (_, page, _inherited) in enumerate(pdf.pages()):
+        for ref in pdf.resolve(page.get('Annots')) or []:
+            if isinstance(ref, pdfread.Ref):
+                annots[tuple(ref)] = i
+
+    def target_of(objr):
+        obj = objr.get('Obj')
+        target = pdf.resolve(obj)
+        if not (isinstance(obj, pdfread.Ref) and isinstance(target, dict) and
+                isinstance(target.get('Subtype'), pdfread.Name) and target.get('Type', 'Annot') == 'Annot'):
+            raise pdfread.PdfError(f'object reference /Obj {obj!r} is not an annotation dictionary of this file')
+        if tuple(obj) not in annots:
+            raise pdfread.PdfError(f'object reference /Obj {obj!r} is an annotation that is in no page /Annots')
+        return tuple(obj)
+
+    targets = set()
+    for number, obj in sorted(pdf.objects.items()):
+        if isinstance(obj, dict) and obj.get('Type') == 'OBJR':
+            key = target_of(obj)
+            if key in targets:
+                return f'structure tree: two object references point at the same annotation {key}'
+            targets.add(key)
+    tree = pdf.resolve(root.get('ParentTree'))
+    nums = pdf.resolve(tree.get('Nums')) if isinstance(tree, dict) else None
+    table = dict(zip(nums[::2], nums[1::2])) if isinstance(nums, list) and len(nums) % 2 == 0 else {}
+    reached = {}
+    for number, value in table.items():
+        entry = pdf.resolve(value)
+        if isinstance(entry, list):
+            continue                      # a page: checked by struct_tree_problem
+        if not isinstance(entry, dict):
+            return f'/ParentTree entry {number} is neither a structure element nor an object reference'
+        if entry.get('Type') == 'OBJR':
+            keys = [target_of(entry)]
+        else:
+            kids = pdf.resolve(entry.get('K'))
+            kids = [pdf.resolve(k) for k in (kids if isinstance(kids, list) else [kids])]
+            keys = [target_of(k) for k in kids if isinstance(k, dict) and k.get('Type') == 'OBJR']
+        owners = [k for k in keys if pdf.resolve(pdfread.Ref(*k)).get('StructParent') == number]
+        if not owners:
+            return (f'/ParentTree entry {number} leads to the annotation(s) {keys}, none of which has /StructParent '
+                    f'{number}')
+        reached[number] = owners[0]
+    for key in annots:
+        annot = pdf.resolve(pdfread.Ref(*key))
+        if isinstance(annot, dict) and 'StructParent' in annot and reached.get(annot['StructParent']) != key:
+            return f'annotation {key} has /StructParent {annot["StructParent"]} but that /ParentTree entry does not lead to it'
+    return None
+
+
+def embedded_file_problem(pdf):
+    """Self-consistency of embedded files: the /Params of every /EmbeddedFile stream describe its own decoded data
+    (/Size = number of bytes, /CheckSum = their MD5)."""
+    import hashlib
+    for number, obj in pdf.objects.items():
+        if not (isinstance(obj, pdfread.PdfStream) and obj.extra.get('Type') == 'EmbeddedFile'):
+            continue
+        params = pdf.resolve(obj.extra.get('Params'))
+        if not isinstance(params, dict):
+            continue
+        data = pdf.decode(obj)
+        size = params.get('Size')
+        if size is not None and size != len(data):
+            return f'embedded file {number}: /Params /Size {size} but the stream decodes to {len(data)} bytes'
+        checksum = params.get('CheckSum')
+        if isinstance(checksum, bytes) and bytes(checksum) != hashlib.md5(data, usedforsecurity=False).digest():
+            return f'embedded file {number}: /Params /CheckSum is not the MD5 of the decoded stream'
+    return None
+
+
 def name_tree_keys(pdf, which):
     """Keys (the bytes the string objects denote) of the /Names array of the catalog's /Dests or /EmbeddedFiles name
     tree, in array order; None when there is no such tree."""
@@ -499,6 +661,7 @@ class C16(PropCheck):
     # ---- correspondence ---------------------------------------------------------------------------------------
     def correspondence(self, run):
         self.regressions(run)
+        self.families(run)
         self.stream_scripts(run)
         self.small_functions(run)
         self.serializer(run)
@@ -524,6 +687,25 @@ class C16(PropCheck):
                 _, data = render_pdf(html, opts)
                 for label, ops, cats in pdfread.content_streams(pdfread.Document(data)):
                     sec.add(check_line(ops, cats), 'ok', meta=dict(meta, stream=label), tags=['regression-stream'])
+
+    def families(self, run):
+        """Fixed families, run first in every run (deterministic, independent of the seed)."""
+        sec = run.section(
+            'families',
+            'fixed families rendered first in every run, every member judged by the clauses of C16 stated directly on '
+            'the written bytes (document_problem): SVG elements (inline, <img>, background) with every kind of opacity '
+            'value incl. 0, 0%, 1, out of range, nested; attachments whose content is a non-ASCII str, bytes, empty, '
+            'longer than one read chunk, given by option / <link> / <a>, under several variants; sequences of '
+            'write_pdf calls on one Document and its copies (subsets of pages, pdf/ua-1 after a plain write and the '
+            'reverse), each output judged. non-trivial = all')
+        for label, html, opts in list(svg_family()) + list(attachment_family()):
+            what = document_problem(html, opts)
+            sec.add(sx.line('check', [], [], [], [], [], [], [], []), 'ok' if what is None else f'{label}: {what}',
+                    meta={'html': html, 'options': opts, 'family': label}, tags=['family:' + label.split(':')[0]])
+        for label, html, steps in sequence_family():
+            what = sequence_problem(html, steps)
+            sec.add(sx.line('check', [], [], [], [], [], [], [], []), 'ok' if what is None else f'{label}: {what}',
+                    meta={'html': html, 'steps': steps, 'family': label}, tags=['family:sequence'])
 
     def stream_scripts(self, run):
         sec = run.section(
@@ -888,6 +1070,11 @@ class C16(PropCheck):
         section, meta = d['section'], d.get('meta') or {}
         if section == 'font-arrays':
             return font_array_problem(d['line'], d['impl'], meta)
+        if section == 'families':
+            if 'steps' in meta:
+                return sequence_problem(meta['html'], meta['steps'])
+            what = document_problem(meta['html'], decode_options(meta['options']))
+            return f'{what} [options {meta["options"]}]' if what else None
         if section == 'regressions':
             what = document_problem(meta['html'], decode_options(meta['options']))
             extra = REGRESSION_INPUTS[meta['regression']][2]
@@ -1000,6 +1187,8 @@ class C16(PropCheck):
             return None if got == want else f'page boxes {got} != {want}'
         if 'widths' in meta:
             return font_array_replay(meta)
+        if 'steps' in meta:
+            return sequence_problem(meta['html'], meta['steps'])
         if 'tag' in meta:
             from weasyprint.pdf.stream import Stream
             got, want = Stream.get_marked_content_tag(None, meta['tag']), EXPECTED_TAGS.get(meta['tag'])
